@@ -142,16 +142,19 @@ impl<'a, E: Elem> GConv<'a, E> {
         };
         let src_addr = v.as_slice().as_ptr() as usize;
         let block_nonzero = core::mem::size_of::<E>() != 0 && l != 0;
-        let mut ev = (0u64, 0u64);
+        let mut ev = (0u64, 0u64, 0u64);
         let r = with_len!(li; N => lib(|| {
             ev.0 = alloc::events();
+            alloc::window_begin();
             let r = match v {
                 VecObj::V(v) => GenericArray::<E, N>::try_from_vec(v).map(Bx::from),
                 VecObj::B(b) => GenericArray::<E, N>::try_from_boxed_slice(b).map(Bx::from),
             };
             ev.1 = alloc::events();
+            ev.2 = alloc::window_max_request();
             r
         }));
+        let block_bytes = (l * core::mem::size_of::<E>()) as u64;
         cx.cov(&[OpKind::VecToBx as u64, n as u64, ((l as i64 - n as i64).clamp(-2, 2) + 2) as u64, is_box as u64, tight as u64]);
         match r {
             Ok(Ok(bx)) => {
@@ -161,8 +164,11 @@ impl<'a, E: Elem> GConv<'a, E> {
                 let (after, dst_addr) = with_bx!(&bx; x, N => { let _ = N::USIZE; (ids_of(x.as_slice(), 957), x.as_slice().as_ptr() as usize) });
                 self.check_same_ids(cx, "Vec/Box<[T]> -> Box<GenericArray>", &before, &after);
                 if cx.checks.c15 && tight && l == n {
-                    if ev.1 != ev.0 {
-                        fail("C15-not-o1", format!("try_from_{}::<{n}> made {} allocator call(s); it is documented to hand over the same block", if is_box { "boxed_slice" } else { "vec (len == capacity)" }, ev.1 - ev.0));
+                    // "hands over the same block without copying": the block must be the same, and no
+                    // request at least as large as the block may have been made meanwhile (a copy
+                    // needs one); unrelated small allocator traffic is not pinned down and not flagged
+                    if block_nonzero && ev.2 >= block_bytes {
+                        fail("C15-not-o1", format!("try_from_{}::<{n}> requested a block of {} bytes while converting a {}-byte block ({} allocator call(s)); it is documented to hand over the same block", if is_box { "boxed_slice" } else { "vec (len == capacity)" }, ev.2, block_bytes, ev.1 - ev.0));
                     } else if block_nonzero && dst_addr != src_addr {
                         fail("C15-not-o1", format!("try_from_{}::<{n}> returned a different block than it was given", if is_box { "boxed_slice" } else { "vec" }));
                     }
@@ -187,11 +193,14 @@ impl<'a, E: Elem> GConv<'a, E> {
         let boxed = a[1] % 2 == 1;
         let (before, src_addr) = with_bx!(&b; x, N => { let _ = N::USIZE; (ids_of(x.as_slice(), 958), x.as_slice().as_ptr() as usize) });
         let block_nonzero = core::mem::size_of::<E>() != 0 && n != 0;
-        let mut ev = (0u64, 0u64);
+        let mut ev = (0u64, 0u64, 0u64);
+        let block_bytes = (n * core::mem::size_of::<E>()) as u64;
         let r = with_bx!(b; x, N => { let _ = N::USIZE; lib(|| {
             ev.0 = alloc::events();
+            alloc::window_begin();
             let r = if boxed { VecObj::B(GenericArray::into_boxed_slice(x)) } else { VecObj::V(GenericArray::into_vec(x)) };
             ev.1 = alloc::events();
+            ev.2 = alloc::window_max_request();
             r
         }) });
         cx.cov(&[OpKind::BxToVec as u64, n as u64, boxed as u64]);
@@ -200,8 +209,8 @@ impl<'a, E: Elem> GConv<'a, E> {
                 let after = ids_of(v.as_slice(), 959);
                 self.check_same_ids(cx, "Box<GenericArray> -> Vec/Box<[T]>", &before, &after);
                 if cx.checks.c15 {
-                    if ev.1 != ev.0 {
-                        fail("C15-not-o1", format!("{}::<{n}> made {} allocator call(s); it is documented to hand over the same block", if boxed { "into_boxed_slice" } else { "into_vec" }, ev.1 - ev.0));
+                    if block_nonzero && ev.2 >= block_bytes {
+                        fail("C15-not-o1", format!("{}::<{n}> requested a block of {} bytes while converting a {}-byte block ({} allocator call(s)); it is documented to hand over the same block", if boxed { "into_boxed_slice" } else { "into_vec" }, ev.2, block_bytes, ev.1 - ev.0));
                     } else if block_nonzero && v.as_slice().as_ptr() as usize != src_addr {
                         fail("C15-not-o1", format!("{}::<{n}> returned a different block than it was given", if boxed { "into_boxed_slice" } else { "into_vec" }));
                     }
